@@ -209,6 +209,19 @@ func (p *provRunner) genOne(r *Rng, prof provProfile) string {
 	ws := []int{prof.wCreate, prof.wUpdate, prof.wRemove, prof.wOpt, prof.wAssign, prof.wStake, prof.wBlock, prof.wChan, prof.wSlash, prof.wMisc, prof.wParams, prof.wVal, prof.wInfr, prof.wReward, prof.wEvid}
 	switch pickWeighted(r, ws) {
 	case 0: // create
+		if prof.conns > 0 && r.chance(30) {
+			// directed: a consumer was launched on an existing connection and is now STOPPED (its client is
+			// still bound to it until deletion): try to launch another consumer on that same connection now
+			for _, id := range p.consumerIds() {
+				c := p.prev[id]["conn"]
+				if p.prev[id]["phase"] == "4" && strings.HasPrefix(c, "connection-90") {
+					next := p.prevG["nextid"]
+					p.script = append(p.script, fmt.Sprintf("optin v=%d c=%s key=- signer=%d", 0, next, 0), fmt.Sprintf("optin v=%d c=%s key=- signer=%d", 1, next, 1))
+					return fmt.Sprintf("create s=%s chain=%s init=1 spawn=0 conn=%s ps=1 topn=0 setcap=0 powcap=0 minstake=0 inactive=1 allow= deny= prio=",
+						p.users(r), p.prev[id]["chain"], c)
+				}
+			}
+		}
 		chain := fmt.Sprintf("c%d-1", r.intn(4))
 		if prof.revisions && r.chance(30) {
 			chain = fmt.Sprintf("c%d-%d", r.intn(4), 1+r.intn(2))
@@ -426,6 +439,11 @@ func (p *provRunner) genOne(r *Rng, prof provProfile) string {
 			}
 			if c == "-" && r.chance(75) {
 				s += " via=" + p.pickConsumer(r)
+			}
+			if c != "-" && r.chance(45) {
+				// the same consumer is credited in a second denom right away (several denoms per consumer in one block)
+				p.chanSeq++
+				p.script = append(p.script, fmt.Sprintf("reward c=%s denom=%s amt=%d seq=%d", c, rewardDenoms[r.intn(3)], amt+1, p.chanSeq))
 			}
 			return s
 		}
@@ -794,7 +812,7 @@ func init() {
 	// epochs: few lifecycle changes, many staking changes with frequent power ties at the M boundary
 	ep := provProfile{name: "epoch", nv: 7, maxvals: 6, M: 3, epoch: 1, unb: 20 * sec, lowPower: true,
 		wCreate: 6, wUpdate: 14, wRemove: 1, wOpt: 22, wAssign: 8, wStake: 24, wBlock: 24, wParams: 2, topn: true}
-	hs := provProfile{name: "handshake", nv: 4, maxvals: 4, M: 3, epoch: 2, unb: 10 * sec, conns: 2,
+	hs := provProfile{name: "handshake", nv: 4, maxvals: 4, M: 3, epoch: 2, unb: 40 * sec, conns: 2,
 		wCreate: 14, wUpdate: 10, wRemove: 5, wOpt: 18, wAssign: 2, wStake: 4, wBlock: 22, wChan: 25, topn: false}
 	streams["handshake"] = StreamDef{New: func(t *Trace) Runner { return newProvRunner(t) }, Gen: genProv(hs)}
 	sl := provProfile{name: "slash", nv: 5, nvExtra: 1, maxvals: 4, M: 4, epoch: 3, unb: 15 * sec, keyPool: 5, lowPower: true, prelaunch: 3,
@@ -1127,8 +1145,37 @@ func (p *provRunner) genMisb(r *Rng, prof provProfile) string {
 	if r.chance(2) {
 		cchain = "c9-1"
 	}
-	s := fmt.Sprintf("misb c=%s client=%s vals=%s h1=%s/%d/%d/%d/%d/%s h2=%s/%d/%d/%d/%d/%s th=%d tvals=%s trusted=%d age=%d cchain=%s",
-		c, client, strings.Join(vals, ","), ch1, h, r1, st1, d1, flags(), ch2, h2, r2, st2, d2, flags(), th, tvals, trusted, age, cchain)
+	f1, f2 := flags(), flags()
+	vals2 := ""
+	if r.chance(25) {
+		// "lunatic" attack: header 2 carries another validator set - the same members with other powers
+		// (hence another order), possibly one fewer and one more
+		var v2 []string
+		for i, kv := range vals {
+			if i == nv-1 && r.chance(30) {
+				continue
+			}
+			k := strings.Split(kv, ":")[0]
+			v2 = append(v2, fmt.Sprintf("%s:%d", k, 1+r.intn(4)))
+		}
+		if r.chance(30) {
+			v2 = append(v2, fmt.Sprintf("%d:%d", p.genKey(r, prof), 1+r.intn(2)))
+		}
+		vals2 = " vals2=" + strings.Join(v2, ",")
+		b := bytes.Repeat([]byte{'c'}, len(v2))
+		if r.chance(40) {
+			b[len(v2)-1] = []byte{'b', 'w', 'a'}[r.intn(3)]
+		}
+		f2 = string(b)
+		if r.chance(40) {
+			// a bad signature in header 1 at the very end as well
+			b1 := []byte(f1)
+			b1[len(b1)-1] = []byte{'b', 'w'}[r.intn(2)]
+			f1 = string(b1)
+		}
+	}
+	s := fmt.Sprintf("misb c=%s client=%s vals=%s h1=%s/%d/%d/%d/%d/%s h2=%s/%d/%d/%d/%d/%s th=%d tvals=%s trusted=%d age=%d cchain=%s%s",
+		c, client, strings.Join(vals, ","), ch1, h, r1, st1, d1, f1, ch2, h2, r2, st2, d2, f2, th, tvals, trusted, age, cchain, vals2)
 	p.lastMisb = s
 	return s
 }
